@@ -71,7 +71,15 @@ def tagchilds_table(prog: Program) -> Dict[str, Any]:
                 rows.append(NormRow(frozenset(var.kinds), "raise", l.value.cls_name if isinstance(l.value, SNew) else "?", None, []))
             else:
                 if l.value.cond:
-                    raise Unmodelled("_tagchilds_to_tagnodes: filtered comprehension")
+                    # a filter: the kinds it can remove are dropped items (flatten has removed None already)
+                    dk = l.value.__dict__.get("drop_kinds")
+                    if dk is None:
+                        raise Unmodelled("_tagchilds_to_tagnodes: filtered comprehension")
+                    for k_ in sorted(set(dk) - {"NONE"}):
+                        if not any(r_.outcome == "drop" and k_ in r_.kinds for r_ in rows):
+                            rows.append(NormRow(frozenset({k_}), "drop", f"by the filter `{l.value.cond[0]}`", None, []))
+                            rows[-1].__dict__["iter_value"] = l.value.base
+                            rows[-1].__dict__["leaf"] = l
                 c = _classify_value(l.value.elt, var)
                 rows.append(NormRow(frozenset(var.kinds), c, "map", l.value.elt, []))
                 rows[-1].__dict__["item"] = var
